@@ -222,6 +222,11 @@ func check(c Case) vk.Verdict {
 					return vk.Failf("%s: rejected (status %d) although %d*%.3f+%d+1 = %.3f <= %d", ctx, status, hiPrev, weight, w.all, rateReal, limit)
 				}
 			}
+		} else if limit < 0 {
+			// a negative limit admits nothing (only 0 means "no limit")
+			if ran {
+				return vk.Failf("%s: MaxFunc returned %d but the request reached the handler", ctx, limit)
+			}
 		} else if !ran {
 			return vk.Failf("%s: MaxFunc returned 0 (limiter disabled for this request) but the handler did not run", ctx)
 		}
@@ -294,7 +299,7 @@ func genCase(t *rapid.T) Case {
 			o.Slow = rapid.IntRange(1, 2*c.Exp).Draw(t, "slowsecs")
 		}
 		if mode == "dynamic" {
-			o.Limit = rapid.IntRange(0, 5).Draw(t, "lim")
+			o.Limit = rapid.IntRange(-1, 5).Draw(t, "lim")
 		}
 		c.Ops = append(c.Ops, o)
 	}
